@@ -87,6 +87,7 @@ def run(ck):
 
     check_dispatch_event(ck, F)
     check_pick_interest(ck, F)
+    layered_drop_span(ck, F)
     role_agreement(ck, F)
     # reload::Subscriber forwards only after taking its lock: a non-blocking try_read that gives up while a reload is in
     # progress silently drops the notification for the wrapped layer (C12.R3's per-call blocking lock rule, instantiated)
@@ -674,3 +675,19 @@ def check_pick_interest(ck, F, rid="C09.R5"):
         ck.bad(rid, "pick_interest: inner asked exactly once unless outer is never", where(b.raw["sp"]), "; ".join(sorted(set(problems))) or "no paths", fn=b.path)
     else:
         ck.ok(rid, "pick_interest: inner asked exactly once unless outer is never", fn=b.path, detail="%d return paths" % n)
+
+
+def layered_drop_span(ck, F):
+    """The deprecated Collect::drop_span is still what Dispatch/Box/Arc forward when an old-style caller drops an id: on
+    a Layered stack it has to be a close like any other -- the stack's own try_close (inner try_close, then the layer's
+    on_close), on every path."""
+    b = F.impl_method(COLLECT, "tracing_subscriber::subscribe::layered::Layered", "drop_span")
+    key = "Layered::drop_span closes through the stack's try_close"
+    if not ck.anchor("C09.R2", "Layered::drop_span", b):
+        return
+    tc = [bb for bb, t in b.calls() if t["callee"].get("method") == "try_close" and b.origin(t["argv"][0])[0] == "arg"]
+    if len(tc) == 1 and b.postdominates(tc[0], 0):
+        ck.ok("C09.R2", key, fn=b.path)
+    else:
+        ck.bad("C09.R2", key, where(b.raw["sp"]), "drop_span does not reach self.try_close on every path: an id dropped through the deprecated entry point "
+               "(Box/Arc/Dispatch forward it) never closes -- no layer sees on_close and the registry keeps the span", fn=b.path)
